@@ -48,8 +48,10 @@ def enumerate_cases(tier, scope):
     for fn in CT_FNS:
         yield {'kind': 'create_task', 'fn': fn}
         yield {'kind': 'create_task', 'fn': fn, 'thread': True}
+        yield {'kind': 'create_task', 'fn': fn, 'implicit_loop': True}
     for what in ('rpc', 'broadcast', 'task'):
         yield {'kind': 'comm_thread', 'what': what}
+        yield {'kind': 'comm_thread', 'what': what, 'implicit_loop': True}
     for fn in ('value', 'raise'):
         yield {'kind': 'rpc_plain', 'fn': fn}
         yield {'kind': 'rpc_plain', 'fn': fn, 'thread': True}
@@ -231,8 +233,17 @@ def _run_create_task(case, v):
                 fut = box['fut']
                 if loop.wakeups <= before:
                     v('loop-not-woken', 'create_task() called from another thread did not wake the event loop: an idle loop would not run the coroutine')
+            elif case.get('implicit_loop'):
+                fut = None
             else:
                 fut = futures.create_task(coro, loop)
+        if case.get('implicit_loop') and not case.get('thread'):
+            # called from synchronous set-up code before the loop runs, without naming the loop (it is the current one)
+            try:
+                fut = futures.create_task(coro)
+            except Exception as exc:  # noqa: BLE001
+                v('create-task-raised', f'create_task(coro) called before the loop runs raised {type(exc).__name__}: {exc}')
+                return
         loop.drain()
         if case['fn'].startswith('gate'):
             if fut.done():
@@ -265,7 +276,12 @@ def _run_comm_thread(case, v):
     asyncio.set_event_loop(loop)
     try:
         inner = kiwipy.LocalCommunicator()
-        comm = communications.LoopCommunicator(inner, loop)
+        if case.get('implicit_loop'):
+            # the wrapper is built on the loop's thread without naming the loop (wrap_communicator(comm)): it belongs to the
+            # loop that is current there, also for messages that other threads deliver later
+            comm = communications.wrap_communicator(inner)
+        else:
+            comm = communications.LoopCommunicator(inner, loop)
         seen = []
 
         def rpc(_comm, msg):
@@ -293,9 +309,18 @@ def _run_comm_thread(case, v):
             else:
                 box['fut'] = comm.task_send('hello')
 
-        worker = threading.Thread(target=send)
+        def guarded_send():
+            try:
+                send()
+            except Exception as exc:  # noqa: BLE001
+                box['error'] = exc
+
+        worker = threading.Thread(target=guarded_send)
         worker.start()
         worker.join()
+        if 'error' in box:
+            v('delivery-raised', f"delivering a {case['what']} message from a communicator thread raised {type(box['error']).__name__}: {box['error']}")
+            return
         if loop.wakeups <= before:
             v('loop-not-woken', f"a {case['what']} message delivered from another thread did not wake the event loop")
         loop.drain()
